@@ -39,10 +39,16 @@ pub fn replay(j: &J) -> Result<J, String> {
                         o.put("result", J::s(&format!("written {}", w)));
                     }
                     "convert_utf16_to_str_partial" | "convert_utf16_to_str" => {
-                        let mut s: String = std::iter::repeat('é').take(dl / 2).collect();
-                        while s.len() < dl {
-                            s.push('y');
-                        }
+                        let mut s: String = match j.get("prior").and_then(|x| x.as_str()) {
+                            Some(p) if p.len() == dl => p.to_string(),
+                            _ => {
+                                let mut s: String = std::iter::repeat('é').take(dl / 2).collect();
+                                while s.len() < dl {
+                                    s.push('y');
+                                }
+                                s
+                            }
+                        };
                         let (r, w) = mem::convert_utf16_to_str_partial(&src, &mut s);
                         o.put("result", J::s(&format!("(read {}, written {}); whole str valid: {}", r, w, std::str::from_utf8(s.as_bytes()).is_ok())));
                         dst = s.as_bytes().to_vec();
@@ -64,7 +70,7 @@ pub fn replay(j: &J) -> Result<J, String> {
                 }
                 o.put("destination_after", J::s(&hex(&dst)));
             }
-            "convert_latin1_to_utf8_partial" | "convert_latin1_to_utf8" | "convert_latin1_to_str_partial" | "convert_latin1_to_utf16" | "copy_ascii_to_ascii" | "copy_ascii_to_basic_latin" | "decode_latin1" | "convert_utf8_to_utf16" | "convert_utf8_to_utf16_without_replacement" | "convert_str_to_utf16" | "convert_utf8_to_latin1_lossy" | "encode_latin1_lossy" => {
+            "convert_latin1_to_utf8_partial" | "convert_latin1_to_utf8" | "convert_latin1_to_str_partial" | "convert_latin1_to_str" | "convert_latin1_to_utf16" | "copy_ascii_to_ascii" | "copy_ascii_to_basic_latin" | "decode_latin1" | "convert_utf8_to_utf16" | "convert_utf8_to_utf16_without_replacement" | "convert_str_to_utf16" | "convert_utf8_to_latin1_lossy" | "encode_latin1_lossy" => {
                 let src = unhex(text);
                 match base {
                     "convert_latin1_to_utf8_partial" => {
@@ -79,11 +85,17 @@ pub fn replay(j: &J) -> Result<J, String> {
                         o.put("result", J::s(&format!("{:?}", r)));
                         o.put("destination_after", J::s(&hex(&dst)));
                     }
-                    "convert_latin1_to_str_partial" => {
-                        let mut s: String = std::iter::repeat('€').take(dl / 3).collect();
-                        while s.len() < dl {
-                            s.push('y');
-                        }
+                    "convert_latin1_to_str_partial" | "convert_latin1_to_str" => {
+                        let mut s: String = match j.get("prior").and_then(|x| x.as_str()) {
+                            Some(p) if p.len() == dl => p.to_string(),
+                            _ => {
+                                let mut s: String = std::iter::repeat('€').take(dl / 3).collect();
+                                while s.len() < dl {
+                                    s.push('y');
+                                }
+                                s
+                            }
+                        };
                         let r = mem::convert_latin1_to_str_partial(&src, &mut s);
                         o.put("result", J::s(&format!("{:?}; whole str valid: {}", r, std::str::from_utf8(s.as_bytes()).is_ok())));
                         o.put("destination_after", J::s(&hex(s.as_bytes())));
